@@ -1,3 +1,351 @@
-/-! C03 model (stub) -/
+/-!
+# C03 model: shutdown protocol of the exporter helper (queue → batcher → retry → export) as an LTS
+
+Mirrors, at the granularity of the code's critical sections / channel operations / joins:
+
+* `exporterhelper/internal/base_exporter.go` `Shutdown` (retry sender, then queue sender, then the wrapped exporter),
+* `queuebatch/queue_batch.go` `Shutdown` (`queue.Shutdown` — which joins the consumers — then `batcher.Shutdown`),
+* `queuebatch/async_queue.go` (consumer loop `Read` → `consumeFunc`; `Shutdown` = stop + `stopWG.Wait`),
+* `queuebatch/memory_queue.go` `Read` (keeps serving queued items after stop, returns `false` only when stopped AND empty;
+  `Offer` after stop still enqueues) and `queuebatch/persistent_queue.go` `Read` (returns `false` as soon as stopped; items
+  stay in storage; `onDone` with a shutdown error keeps the item stored),
+* `queuebatch/disabled_batcher.go` (consumer calls the export chain itself) and `queuebatch/default_batcher.go`
+  (`Consume` critical section = merge with the current batch and re-partition; `flush` = `stopWG.Add`, take a worker slot, `go`;
+  timer goroutine `flushCurrentBatchIfNecessary`; `Shutdown` = close `shutdownCh`, final flush, `stopWG.Wait`),
+* `retry_sender.go` (`Send` loop: call, on transient failure either back off, give up, or — once `stopCh` is closed — return a
+  shutdown error).
+
+Abstractions (all are over-approximations, i.e. the LTS allows at least the behaviours of the code):
+payload items are natural numbers; a request / batch is a list of items; the re-partition done by `MergeSplit`
+is ANY lists `flush`, `keep` whose concatenation is a permutation of current batch ++ request (covers every sizer and every
+min/max size); queue capacity / refusals do not appear (a refused offer changes nothing); time does not appear (every timer may
+fire at any moment; a back-off may end, be interrupted, or be given up at any moment); the backend outcome of every call is arbitrary.
+Storage is tracked per item (`stored`), an item leaves it when a flight containing it ends without a shutdown error — the real
+queue deletes per request and therefore keeps at least these items (under-approximation of what is kept).
+-/
 namespace OtelVerif.C03
+
+abbrev Item := Nat
+abbrev Batch := List Item
+
+/-- static configuration -/
+structure Cfg where
+  persistent : Bool   -- `StorageID != nil`
+  batching : Bool     -- `Batch != nil` (default batcher) vs disabled batcher
+  retry : Bool        -- `retry_on_failure.enabled`
+deriving DecidableEq, Repr
+
+/-- state of one queue consumer goroutine (`asyncQueue.Start`) -/
+inductive CSt
+  | idle                         -- in `Read` (blocked or about to pop)
+  | holding (b : Batch)          -- popped a request, about to call `consumeFunc`
+  | flushing (pend : List Batch) -- default batcher: left the critical section, still has `flush()` calls to make
+  | busy (f : Nat)               -- disabled batcher: inside the export chain, as flight `f`
+  | exited
+deriving DecidableEq, Repr
+
+/-- the default batcher's timer goroutine; `dead` also stands for "never started" (`flush_timeout = 0`, disabled batcher) -/
+inductive TSt
+  | idle
+  | holding (b : Batch)          -- took the current batch, blocked in `flush()` for a worker slot
+  | dead
+deriving DecidableEq, Repr
+
+inductive FSt
+  | pending   -- goroutine started / export chain entered, export function not yet called
+  | calling   -- inside the export function
+  | backoff   -- retry sender waiting between attempts
+  | done      -- `done.OnDone` called
+deriving DecidableEq, Repr
+
+/-- one pass of a batch through obsreport → retry → timeout → export (a flush goroutine, or the consumer itself) -/
+structure Flight where
+  batch : Batch
+  st : FSt
+  attempts : Nat          -- calls of the export function
+  failures : Nat          -- of which returned an error
+  owner : Option Nat      -- `some i`: runs on consumer goroutine `i` (disabled batcher)
+  kept : Bool             -- ended with a shutdown error: a persistent queue keeps the request stored
+deriving DecidableEq, Repr
+
+def Flight.new (b : Batch) (owner : Option Nat) : Flight :=
+  { batch := b, st := .pending, attempts := 0, failures := 0, owner := owner, kept := false }
+
+structure State where
+  cfg : Cfg
+  /-- progress of the goroutine running `BaseExporter.Shutdown`:
+  0 not requested · 1 retry sender stopped (`close(stopCh)`) · 2 queue stopped (`stopped = true; Broadcast`) ·
+  3 consumers joined (`stopWG.Wait` of the async queue returned) · 4 batcher `shutdownCh` closed and current batch taken ·
+  5 `stopWG.Wait` of the batcher returned = shutdown returned -/
+  phase : Nat
+  queue : List (Batch × Bool)     -- requests in the queue; flag = enqueued after shutdown was requested
+  cons : List CSt
+  cur : Option Batch              -- `defaultBatcher.currentBatch`
+  workers : Nat                   -- free slots of `workerPool`
+  timer : TSt
+  shutHand : Option Batch         -- batch taken by the final `flushCurrentBatchIfNecessary`, not yet handed to a goroutine
+  flights : List Flight           -- never shrinks; index = flight id
+  early : List Item               -- ghost: items whose enqueue completed before shutdown was requested
+  accepted : List Item            -- ghost: items of every completed enqueue
+  stored : List Item              -- ghost (persistent queue): items in storage
+deriving Repr
+
+def init (cfg : Cfg) (nCons workers : Nat) (timer : Bool) : State :=
+  { cfg := cfg, phase := 0, queue := [], cons := List.replicate nCons .idle, cur := none, workers := workers,
+    timer := if cfg.batching && timer then .idle else .dead, shutHand := none, flights := [],
+    early := [], accepted := [], stored := [] }
+
+inductive Outcome | ok | perm | trans
+deriving DecidableEq, Repr
+
+/-- what the retry sender does after a failed call -/
+inductive After
+  | again   -- wait and retry
+  | drop    -- return the error (permanent / retries exhausted / retry disabled / context done)
+  | keep    -- return a shutdown error (`case <-rs.stopCh`)
+deriving DecidableEq, Repr
+
+inductive Label
+  | offer (b : Batch)                                   -- an enqueue completes (`Offer` past `add`/`putInternal`)
+  | read (i : Nat)
+  | exit (i : Nat)
+  | sendSync (i : Nat)                                  -- disabled batcher: consumer enters the export chain
+  | consume (i : Nat) (flush : List Batch) (keep : Option Batch)   -- default batcher critical section
+  | spawn (i : Nat)                                     -- consumer's `flush()`: slot taken, goroutine started
+  | timerTake | timerSpawn | timerExit
+  | expStart (f : Nat)
+  | expEnd (f : Nat) (o : Outcome) (a : After)
+  | giveUp (f : Nat) (kept : Bool)                      -- back-off interrupted (`stopCh` → kept, `ctx.Done` → not)
+  | shutRetry | shutQueue | join | shutBatcher | shutSpawn | shutWait
+deriving DecidableEq, Repr
+
+def afterFlush : List Batch → CSt
+  | [] => .idle
+  | p :: ps => .flushing (p :: ps)
+
+/-- the consumer goroutine that ran flight `f` itself returns to its `Read` loop -/
+def releaseOwner (cons : List CSt) (f : Nat) : Option Nat → List CSt
+  | some i => if cons[i]? = some (.busy f) then cons.set i .idle else cons
+  | none => cons
+
+/-- the flight ends: `done.OnDone(err)`; releases its consumer or its worker slot -/
+def finalise (s : State) (f : Nat) (fl : Flight) (kept : Bool) (fail : Nat) : State :=
+  { s with
+    flights := s.flights.set f { fl with st := .done, failures := fl.failures + fail, kept := kept }
+    cons := releaseOwner s.cons f fl.owner
+    workers := match fl.owner with | some _ => s.workers | none => s.workers + 1
+    stored := if kept then s.stored else s.stored.filter (fun x => !fl.batch.contains x) }
+
+def allDoneOrOwned (fs : List Flight) : Bool := fs.all (fun fl => fl.owner.isSome || fl.st == .done)
+
+def fire (s : State) : Label → Option State
+  | .offer b =>
+    some { s with
+      queue := s.queue ++ [(b, decide (1 ≤ s.phase))]
+      accepted := s.accepted ++ b
+      early := if s.phase = 0 then s.early ++ b else s.early
+      stored := if s.cfg.persistent then s.stored ++ b else s.stored }
+  | .read i =>
+    match s.cons[i]?, s.queue with
+    | some .idle, (b, _) :: rest =>
+      -- persistent_queue.Read checks `stopped` before looking at the storage; memory_queue.Read pops first
+      if s.cfg.persistent && decide (2 ≤ s.phase) then none
+      else some { s with queue := rest, cons := s.cons.set i (.holding b) }
+    | _, _ => none
+  | .exit i =>
+    match s.cons[i]? with
+    | some .idle =>
+      if 2 ≤ s.phase ∧ (s.cfg.persistent = true ∨ s.queue = []) then some { s with cons := s.cons.set i .exited } else none
+    | _ => none
+  | .sendSync i =>
+    match s.cons[i]? with
+    | some (.holding b) =>
+      if s.cfg.batching then none
+      else some { s with cons := s.cons.set i (.busy s.flights.length), flights := s.flights ++ [Flight.new b (some i)] }
+    | _ => none
+  | .consume i flush keep =>
+    match s.cons[i]? with
+    | some (.holding b) =>
+      if s.cfg.batching && (flush.flatten ++ keep.getD []).isPerm (s.cur.getD [] ++ b)
+      then some { s with cur := keep, cons := s.cons.set i (afterFlush flush) } else none
+    | _ => none
+  | .spawn i =>
+    match s.cons[i]? with
+    | some (.flushing (b :: rest)) =>
+      if 0 < s.workers then
+        some { s with workers := s.workers - 1, cons := s.cons.set i (afterFlush rest), flights := s.flights ++ [Flight.new b none] }
+      else none
+    | _ => none
+  | .timerTake =>
+    match s.timer, s.cur with
+    | .idle, some b => some { s with timer := .holding b, cur := none }
+    | _, _ => none
+  | .timerSpawn =>
+    match s.timer with
+    | .holding b =>
+      if 0 < s.workers then some { s with workers := s.workers - 1, timer := .idle, flights := s.flights ++ [Flight.new b none] } else none
+    | _ => none
+  | .timerExit =>
+    match s.timer with
+    | .idle => if 4 ≤ s.phase then some { s with timer := .dead } else none
+    | _ => none
+  | .expStart f =>
+    match s.flights[f]? with
+    | some fl =>
+      if fl.st = .pending ∨ fl.st = .backoff
+      then some { s with flights := s.flights.set f { fl with st := .calling, attempts := fl.attempts + 1 } } else none
+    | none => none
+  | .expEnd f o a =>
+    match s.flights[f]? with
+    | some fl =>
+      if fl.st = .calling then
+        match o, a with
+        | .ok, .drop => some (finalise s f fl false 0)
+        | .perm, .drop => some (finalise s f fl false 1)
+        | .trans, .drop => some (finalise s f fl false 1)
+        | .trans, .again =>
+          if s.cfg.retry then some { s with flights := s.flights.set f { fl with st := .backoff, failures := fl.failures + 1 } } else none
+        | .trans, .keep => if s.cfg.retry && decide (1 ≤ s.phase) then some (finalise s f fl true 1) else none
+        | _, _ => none
+      else none
+    | none => none
+  | .giveUp f kept =>
+    match s.flights[f]? with
+    | some fl =>
+      if fl.st = .backoff ∧ (kept = true → 1 ≤ s.phase) then some (finalise s f fl kept 0) else none
+    | none => none
+  | .shutRetry => if s.phase = 0 then some { s with phase := 1 } else none
+  | .shutQueue => if s.phase = 1 then some { s with phase := 2 } else none
+  | .join => if s.phase = 2 ∧ s.cons.all (· == .exited) = true then some { s with phase := 3 } else none
+  | .shutBatcher =>
+    -- `shutHand` is the local `batchToFlush` of the final flushCurrentBatchIfNecessary: it does not exist before this step
+    if s.phase = 3 ∧ s.shutHand = none then some { s with phase := 4, shutHand := s.cur, cur := none } else none
+  | .shutSpawn =>
+    match s.shutHand with
+    | some b =>
+      if s.phase = 4 ∧ 0 < s.workers
+      then some { s with shutHand := none, workers := s.workers - 1, flights := s.flights ++ [Flight.new b none] } else none
+    | none => none
+  | .shutWait =>
+    -- disabledBatcher.Shutdown is a no-op; defaultBatcher.Shutdown waits for the timer goroutine and every flush goroutine
+    if s.phase = 4 ∧ (s.cfg.batching = true → s.shutHand = none ∧ s.timer = .dead ∧ allDoneOrOwned s.flights = true)
+    then some { s with phase := 5 } else none
+
+/-- run a schedule (list of labels); `none` if some label is not enabled -/
+def runFrom (s : State) : List Label → Option State
+  | [] => some s
+  | l :: ls => match fire s l with
+    | some s' => runFrom s' ls
+    | none => none
+
+/-- reachable from an initial state -/
+inductive Reachable : State → Prop
+  | init (cfg nCons workers timer) : Reachable (init cfg nCons workers timer)
+  | step {s s'} (l : Label) : Reachable s → fire s l = some s' → Reachable s'
+
+theorem reachable_of_runFrom {s s' : State} (ls : List Label) (h : Reachable s) (hr : runFrom s ls = some s') : Reachable s' := by
+  induction ls generalizing s with
+  | nil => simp [runFrom] at hr; exact hr ▸ h
+  | cons l ls ih =>
+    simp only [runFrom] at hr
+    cases hf : fire s l with
+    | none => simp [hf] at hr
+    | some s1 => simp [hf] at hr; exact ih (Reachable.step l h hf) hr
+
+/-! ## where the items are -/
+
+def CSt.items : CSt → List Item
+  | .holding b => b
+  | .flushing pend => pend.flatten
+  | _ => []
+
+def TSt.items : TSt → List Item
+  | .holding b => b
+  | _ => []
+
+def optItems : Option Batch → List Item
+  | some b => b
+  | none => []
+
+def queueItems (q : List (Batch × Bool)) : List Item := q.flatMap (·.1)
+def queueEarly (q : List (Batch × Bool)) : List Item := q.flatMap (fun p => if p.2 then [] else p.1)
+def consItems (cs : List CSt) : List Item := cs.flatMap CSt.items
+def flightItems (fs : List Flight) : List Item := fs.flatMap (·.batch)
+
+/-- every place an item can be (flights are kept after they ended) -/
+def places (s : State) : List Item :=
+  queueItems s.queue ++ consItems s.cons ++ optItems s.cur ++ s.timer.items ++ optItems s.shutHand ++ flightItems s.flights
+
+/-- the same without the requests enqueued after shutdown was requested that still sit in the queue -/
+def placesEarly (s : State) : List Item :=
+  queueEarly s.queue ++ consItems s.cons ++ optItems s.cur ++ s.timer.items ++ optItems s.shutHand ++ flightItems s.flights
+
+/-! ## trace-level monitor (M tie): events recorded from the real exporter, checked by `check` -/
+
+inductive Ev
+  | acc (items : List Item)          -- a `Send` returned nil
+  | shutReq
+  | es (call : Nat) (items : List Item)   -- the export function was entered
+  | ee (call : Nat) (failed : Bool)       -- … and returned
+  | shutRet
+deriving DecidableEq, Repr
+
+def evsBefore (p : Ev → Bool) : List Ev → List Ev
+  | [] => []
+  | e :: es => if p e then [] else e :: evsBefore p es
+
+def isShutReq : Ev → Bool | .shutReq => true | _ => false
+def isShutRet : Ev → Bool | .shutRet => true | _ => false
+
+/-- items accepted before shutdown was requested -/
+def earlyItems (t : List Ev) : List Item :=
+  (evsBefore isShutReq t).flatMap (fun e => match e with | .acc is => is | _ => [])
+
+def startsOf (t : List Ev) : List (Nat × List Item) :=
+  t.filterMap (fun e => match e with | .es c is => some (c, is) | _ => none)
+def endsOf (t : List Ev) : List (Nat × Bool) :=
+  t.filterMap (fun e => match e with | .ee c f => some (c, f) | _ => none)
+
+/-- number of export calls containing `x` -/
+def attemptsOf (t : List Ev) (x : Item) : Nat := ((startsOf t).filter (fun p => p.2.contains x)).length
+/-- some call containing `x` returned an error -/
+def failedFor (t : List Ev) (x : Item) : Bool :=
+  (startsOf t).any (fun p => p.2.contains x && (endsOf t).contains (p.1, true))
+
+def evsAfter (p : Ev → Bool) : List Ev → List Ev
+  | [] => []
+  | e :: es => if p e then es else evsAfter p es
+
+structure Verdict where
+  returned : Bool
+  undrained : List Item      -- early items never attempted before shutdown returned
+  duplicated : List Item     -- early items attempted more than once although no attempt containing them failed
+  openCalls : List Nat       -- calls entered before shutdown returned that had not returned by then
+  lateCalls : List Nat       -- calls entered after shutdown returned
+deriving Repr, DecidableEq
+
+/-- the property's clauses evaluated on a recorded trace (memory-queue reading; the persistent-queue clause replaces
+`undrained` by "neither attempted nor recovered", see `lostPersistent`) -/
+def verdict (t : List Ev) : Verdict :=
+  let pre := evsBefore isShutRet t
+  let post := evsAfter isShutRet t
+  let early := earlyItems t
+  { returned := t.any isShutRet
+    undrained := early.filter (fun x => attemptsOf pre x == 0)
+    duplicated := early.filter (fun x => !failedFor pre x && decide (1 < attemptsOf pre x) && decide (early.count x ≤ 1))
+    openCalls := ((startsOf pre).map (·.1)).filter (fun c => !((endsOf pre).map (·.1)).contains c)
+    lateCalls := (startsOf post).map (·.1) }
+
+/-- persistent queue: early items neither attempted before the return nor recovered by the next start -/
+def lostPersistent (t : List Ev) (recovered : List Item) : List Item :=
+  (earlyItems t).filter (fun x => attemptsOf (evsBefore isShutRet t) x == 0 && !recovered.contains x)
+
+def checkMemory (t : List Ev) : Bool :=
+  let v := verdict t
+  v.returned && v.undrained.isEmpty && v.duplicated.isEmpty && v.openCalls.isEmpty && v.lateCalls.isEmpty
+
+def checkPersistent (t : List Ev) (recovered : List Item) : Bool :=
+  let v := verdict t
+  v.returned && (lostPersistent t recovered).isEmpty && v.openCalls.isEmpty && v.lateCalls.isEmpty
+
 end OtelVerif.C03
